@@ -52,6 +52,24 @@ def check(h, baseline=None):
         out.append({'clause': clause, 'detail': detail, 'sigkey': what, 'sig': s})
 
     # ---- C11.a: no two live client transactions of one stack share (peer, invoke)
+    # A reassembled answer that cannot be decoded is handed to the application as an ANONYMOUS error (no source, no invoke
+    # id): the transaction it ends is the one whose frame the client was delivered immediately before.
+    anon_end = {}
+    for name in sorted(h.stacks):
+        for st in [h.stacks[name]] + [z for z in h.zombies if z.name == name]:
+            for (seq, t, peer, inv, kind, detail, data) in st.app.confs:
+                if peer is None:
+                    last = None
+                    for f in w.rx:
+                        if f['node'] == name and f['seq'] < seq:
+                            last = f
+                        elif f['seq'] >= seq:
+                            break
+                    if last is not None:
+                        n_, a_ = txn.decode_lan_frame(last['octets'])
+                        if a_ is not None and a_.get('invoke') is not None:
+                            anon_end.setdefault((name, last['src'], a_['invoke']), []).append(seq)
+                            w.probe('anonymous_error_ends_transaction')
     spans = {}
     for r in h.reqs:
         if r.act0 is None or r.invoke is None:
@@ -60,6 +78,10 @@ def check(h, baseline=None):
             continue            # refused at submit: never live
         outs = txn.outcomes_of(h, r)
         end = outs[0][0] if outs else 1 << 60
+        if not outs:
+            later = [q for q in anon_end.get((r.c, r.peer, r.invoke), []) if q > r.act0]
+            if later:
+                end = later[0]
         if r.mode == 'iocb' and r.cancel_seq is not None:
             # a cancelled IOCB's transaction lives on inside the stack; its id
             # stays reserved until the stack itself finishes (not observable at
